@@ -102,7 +102,7 @@ pub fn bits_to_ascii(mut bits: Vec<usize>) -> (r: String)
 pub fn get_graph6_representation<G>(graph: G) -> (r: String)
 where
     G: GetAdjacencyMatrix + IntoNodeIdentifiers/*+*/,
-    requires forall|i: int| 0 <= i < graph.node_ids().len() ==> graph.adj_node(#[trigger] graph.node_ids()[i]), graph.node_ids().len() < usize::MAX, graph.adj_pre(),
+    requires forall|i: int| 0 <= i < graph.node_ids().len() ==> graph.adj_node(#[trigger] graph.node_ids()[i]), graph.node_ids().len() < usize::MAX, graph.adj_pre(), graph.ids_inv(),
     ensures graph.node_ids().len() <= 258047,                                             // (panics for a larger graph, as documented by the format)
         r@ == ascii_of((if graph.node_ids().len() < 63 { nbits(graph.node_ids().len() as usize, 6) } else { nbits(63, 6) + nbits(graph.node_ids().len() as usize, 18) })
                         + ubits(graph, graph.node_ids(), graph.node_ids().len() as int))/*-*/   // [g6_string_is_header_then_upper_triangle]
